@@ -1835,7 +1835,7 @@ pub(crate) fn t_changes(c: TCfg) {
         let j = any_in(0, ch.len() - 2);
         kv_assert!(ch[j] < ch[j + 1], "[C02] changed-line indices are strictly increasing");
     }
-    kv_assert!(reported == was_dirty, "[C15] changes() reports exactly the flagged rows");
+    kv_assert!(reported == was_dirty, "[C15][C12] changes() reports exactly the flagged rows (nothing that depends on where the call falls)");
     kv_assert!(!dl_get(&t.dirty_lines, r), "[C15] changes() clears the flags");
     std::mem::forget(ch);
     let allow = Allow::default();
